@@ -211,21 +211,6 @@ Definition do_dial_addr (L : limits) (m : mgr) (p : peer) (dial_fails : bool) : 
         else (set_pending m1 (insert_key c p (pending m1)), [CallDial c; Ret RET_OK])
     end.
 
-(* dial_address with an address routed to a transport that is not installed (WebSocket in the
-   harness): as above, but the transport is never called *)
-Definition do_dial_addr_missing (L : limits) (m : mgr) (p : peer) : mgr * list out :=
-  if limit_reached (max_out L) (outs m) then (m, [Ret RET_LIMIT])
-  else
-    let c := next_conn m in
-    let m0 := set_known (bump_conn m) p in
-    match can_dial (state_of m0 p) with
-    | GateConnected => (m0, [Ret RET_CONNECTED])
-    | GateInProgress => (m0, [Ret RET_OK])
-    | GateOk =>
-        (set_state (set_state m0 p (Dialing c)) p (st_on_dial_failure (Dialing c) c),
-         [Ret RET_NOT_SUPPORTED])
-    end.
-
 (* the registered listen address of the harness node: /ip4/<private 1>/tcp/7000, stored with and
    without the local peer id *)
 Definition LISTEN0 : V.C10.Model.maddr := [V.C10.Model.Ip4 V.C10.Model.Priv 1; V.C10.Model.Tcp 7000].
@@ -237,7 +222,8 @@ Definition do_dial_shape (L : limits) (m : mgr) (a : V.C10.Model.maddr) : mgr * 
     match dial_shape LISTEN a with
     | SvRefuse code => (m, [Ret code])
     | SvTcp p => do_dial_addr L m p false
-    | SvWs p => do_dial_addr_missing L m p
+    | SvWs _ => (m, [Ret RET_NOT_SUPPORTED])   (* the WebSocket transport is not installed in the harness:
+                                                  refused before anything is recorded (`fix:` commit) *)
     end.
 
 (* TransportEvent::DialFailure *)
